@@ -142,7 +142,7 @@ def _one(ctx, case):
         if case['dialect'] == 'sqlite' and case.get('rows'):
             classes.append('query:live')
     sample = None
-    seen = ctx.extra.setdefault('_samples_by_kind', {})
+    seen = ctx.__dict__.setdefault('_c06_samples_by_kind', {})
     if nt and seen.get(case['kind'], 0) < (1 if case['kind'] == 'value' else 2) and len(ctx.samples) < 6 \
             and (case['kind'] == 'value' or ctx.evaluations % 7 == 0):
         seen[case['kind']] = seen.get(case['kind'], 0) + 1
